@@ -794,24 +794,3 @@ Proof.
     split; [exact E|]. apply strict_agree. now rewrite <- E.
   - intros (rs' & E & H). rewrite E. now apply strict_agree.
 Qed.
-
-(* ---------------------------------------------------------------------------------------------- *)
-(* 10. a boolean test of the domain hypothesis (used by the non-vacuity examples)                  *)
-
-Definition complete_onb (alts : list N) (o : order) : bool :=
-  nodupN (concat o) && forallb (fun c => negb (is_nil c)) o
-  && forallb (fun a => memN a (concat o)) alts && forallb (fun a => memN a alts) (concat o).
-
-Lemma complete_onb_sound alts o : complete_onb alts o = true -> complete_on alts o.
-Proof.
-  unfold complete_onb. rewrite !andb_true_iff, nodupN_correct, !forallb_forall.
-  intros [[[H1 H2] H3] H4]. split; [assumption|]. split.
-  - apply Forall_forall. intros c Hc E. specialize (H2 c Hc). subst c. discriminate.
-  - intros a. split; intros Ha; apply memN_In; auto.
-Qed.
-
-Lemma complete_profile_sound alts p :
-  forallb (complete_onb alts) p = true -> Forall (complete_on alts) p.
-Proof.
-  rewrite forallb_forall, Forall_forall. intros H o Ho. apply complete_onb_sound. now apply H.
-Qed.
